@@ -102,7 +102,7 @@ def part_b_history(k, plan, exe, root, nops):
     make_tree(A)
     make_tree(B)
     g = wasih.Guest(plan, ARENA)
-    g.instantiate(preopens=[B])
+    g.instantiate(preopens=[B], native={0} if r.random() < 0.25 else ())   # sometimes registered with a native descriptor
     g.poke(0, bytes(r.getrandbits(8) for _ in range(4096)))
     checks = []
     classes = []
